@@ -17,8 +17,8 @@ abbrev Chunk := List Nat          -- bytes
 inductive Actor | main | out | err | stdin | timer deriving DecidableEq, Repr
 
 inductive MainPc
-  | poll | pollDead (fin : Bool) | sendIntr | setFin | join (i : Nat) (n : Nat) (tmo : Bool)
-  | checkTimeout | stop | done
+  | poll | pollDead (fin : Bool) | sendIntr | settleCheck | settleCancel | setFin
+  | join (i : Nat) (n : Nat) (tmo : Bool) | checkTimeout | stop | done
   deriving DecidableEq, Repr
 inductive RdPc | read | done | dead deriving DecidableEq, Repr
 inductive InItem | data (d : Chunk) | notReady | eof deriving DecidableEq, Repr
@@ -69,6 +69,10 @@ structure S where
   inClosed : Bool := false
   tmPc : TmPc := .none
   fin : Bool := false            -- program_finished
+  processDone : Bool := false    -- `_process_done`: wait() saw the subprocess ended
+  killIssued : Bool := false     -- `_kill_issued`: kill() ran while the subprocess was not known to have ended
+  killSkipped : Bool := false    -- `_kill_skipped`: kill() found the subprocess already ended and did nothing
+  early : Bool := false          -- `_timer_cancelled_early`: the timer was disarmed because the subprocess ended first
   capOut : List Chunk := []
   capErr : List Chunk := []
   mirOut : List Chunk := []      -- what was forwarded to our own stdout stream
@@ -144,10 +148,21 @@ def readerStep (n : Nat) (p : Pipe) (pc : RdPc) (cap : List Chunk) : Pipe × RdP
 
 def timerAlive (t : TmPc) : Bool := t = .armed || t = .kill || t = .finish
 
+/-- `_finish` after the joins.  `timeout is not None and (_kill_issued or (timed_out and not
+    _timer_cancelled_early))`: the `or` short-circuits, so `Timer.is_alive()` (a gate of its own,
+    `checkTimeout`) is only consulted when no kill was issued. -/
 def afterJoins (s : S) : S :=
   if s.anyDead then { s with outcome := .threadExc, mainPc := if s.hasTimer then .stop else .done }
-  else if s.hasTimer then { s with mainPc := .checkTimeout }
+  else if s.hasTimer then
+    (if s.killIssued then { s with outcome := decideOutcome s true, mainPc := .stop }
+     else { s with mainPc := .checkTimeout })
   else { s with outcome := decideOutcome s false, mainPc := .done }
+
+/-- leaving `wait()`: `_disarm_timer_if_timely` consults the timer only when a timeout is in effect,
+    the subprocess was seen to have ended and no kill was issued -/
+def leaveWait (s : S) : S :=
+  if s.hasTimer && s.processDone && !s.killIssued then { s with mainPc := .settleCheck }
+  else { s with mainPc := .setFin }
 
 /-- enter the join of the `i`-th worker; the timeout is decided now (`_thread_join_timeout`) -/
 def enterJoin (s : S) (i : Nat) : S :=
@@ -162,7 +177,13 @@ def mainStep (s : S) : S :=
   | .poll =>
     if s.intr then { s with intr := false, mainPc := .sendIntr } else { s with mainPc := .pollDead s.exited }
   | .sendIntr => { s with childStdin := s.childStdin ++ [(false, [3])], mainPc := .poll }
-  | .pollDead fin => if fin || s.anyDead then { s with mainPc := .setFin } else { s with mainPc := .poll }
+  | .pollDead fin =>
+    if fin || s.anyDead then leaveWait { s with processDone := s.processDone || fin }
+    else { s with mainPc := .poll }
+  | .settleCheck =>   -- `not self.timed_out or self._kill_skipped`
+    if timerAlive s.tmPc || s.killSkipped then { s with mainPc := .settleCancel } else { s with mainPc := .setFin }
+  | .settleCancel =>  -- `_timer.cancel()`, then `_timer_cancelled_early = True`
+    { s with tmPc := (if s.tmPc = .armed then .cancelled else s.tmPc), early := true, mainPc := .setFin }
   | .setFin => enterJoin { s with fin := true } 0
   | .join i n tmo =>
     match s.joinOrder[i]? with
@@ -171,7 +192,7 @@ def mainStep (s : S) : S :=
       if s.finished a then nextJoin s i
       else if tmo && joinPatience ≤ n then nextJoin s i
       else { s with mainPc := .join i (n + 1) tmo }
-  | .checkTimeout => { s with outcome := decideOutcome s (!timerAlive s.tmPc), mainPc := .stop }
+  | .checkTimeout => { s with outcome := decideOutcome s (!timerAlive s.tmPc && !s.early), mainPc := .stop }
   | .stop => { s with tmPc := (if s.tmPc = .armed then .cancelled else s.tmPc), mainPc := .done }
   | .done => s
 
@@ -205,8 +226,10 @@ def timerStep (s : S) : S :=
   if !s.hasTimer then s else
   match s.tmPc with
   | .armed => { s with tmPc := .kill }
-  | .kill =>
-    { killEffect s with kills := s.kills + 1, killsAfterReturn := s.killsAfterReturn + lateKill s, tmPc := .finish }
+  | .kill =>   -- `Local.kill`: nothing is killed once the subprocess is known to have ended
+    if s.processDone then { s with killSkipped := true, tmPc := .finish }
+    else { killEffect s with killIssued := true, kills := s.kills + 1,
+                             killsAfterReturn := s.killsAfterReturn + lateKill s, tmPc := .finish }
   | .finish => { s with tmPc := .done }
   | _ => s
 
